@@ -46,7 +46,7 @@ COMPONENTS = {
     "real": ["EnsembleOptimizer (stopping criteria, exit codes)", "optimizer / evaluator steps", "EnsembleEvaluator", "filters", "estimators", "ConstraintInfo", "SciPy plug-in + real scipy.optimize (40% of groups)"],
     "stub": ["SimEvaluator with fault plan", "sim/scripted optimizer (60% of groups)", "objective/constraint scalers"],
 }
-PROBES = ["delivered_function_results_vs_budget", "estimator_deficiency_in_gradient_only_evaluation", "every_completed_evaluation_delivered", "all_failed_tolerated_run_continues", "too_few_expected", "too_few_by_filter", "too_few_by_estimator", "too_few_by_threshold", "max_functions_expected",
+PROBES = ["abort_raised_at_event", "abort_raised_at_event_of_evaluator_step", "delivered_function_results_vs_budget", "estimator_deficiency_in_gradient_only_evaluation", "every_completed_evaluation_delivered", "all_failed_tolerated_run_continues", "too_few_expected", "too_few_by_filter", "too_few_by_estimator", "too_few_by_threshold", "max_functions_expected",
           "user_abort_expected", "evaluator_exception_expected", "finished_expected", "real_scipy_backend", "parallel_de",
           "evaluator_step", "nested", "dontcare_zero_weight_survivors", "failing_results_delivered", "rms_zero_all_failed"]
 REAL = ["slsqp", "l-bfgs-b", "cobyla", "nelder-mead", "differential_evolution", "newton-cg"]
@@ -297,6 +297,18 @@ def check_run(ctx, scn, fault, viol, probes, baseline=None) -> tuple[int, str]:
     if scn.get("nested"):
         mf = None  # budgets of nested runs are not modelled (inner and outer requests share one log)
     # ---- the step returns normally -----------------------------------------------------------
+    if fault is not None and fault.get("kind") == "event_abort" and ctx.fired.get("abort_at_event"):
+        probe("abort_raised_at_event")
+        if step_kind == "evaluator":
+            probe("abort_raised_at_event_of_evaluator_step")
+        allowed = {int(OptimizerExitCode.USER_ABORT)}
+        if first_def is not None:
+            allowed.add(int(OptimizerExitCode.TOO_FEW_REALIZATIONS))  # (an abort after the deficient evaluation: either reading)
+        if ex is None or ex[0] != "ret" or ex[2] not in allowed:
+            viol.append({"clause": "event-abort-not-reported-as-user-abort", "sig": {"step": step_kind, "how": ex[0] if ex else "none"},
+                         "detail": f"backend {backend}: an {fault['receiver']} raised the user abort at event {fault['event']} of the {step_kind} step; "
+                                   f"the step ended with {ex}"})
+        return 1, "USER_ABORT"
     if raised is not None:
         probe("evaluator_exception_expected")
         if ex is None or ex[0] != "evaluator_error":
@@ -450,6 +462,11 @@ def execute(scn: dict) -> dict:
                      "pert": frng.choice([None, -1] + list(range(npert))), "col": None}
                 fl.append(f)
             fault = {"kind": "nan", "faults": fl, "at": k}
+        elif kind == "abort" and frng.random() < 0.5 and len(base.events) > 0:
+            # the abort is requested the documented way from an event: an observer or a handler raises it at the
+            # e-th event of the run (for both kinds of step)
+            e = (member * 7 + k) % len(base.events)
+            fault = {"kind": "event_abort", "event": e, "receiver": frng.choice(["obs", "h0a"]), "at": e}
         elif kind in ("raise", "abort"):
             fault = {"kind": kind, "faults": [{"kind": kind, "eval": min(k, max(L - 1, 0))}], "at": k}
         else:
@@ -462,6 +479,8 @@ def execute(scn: dict) -> dict:
         fs = copy.deepcopy(scn)
         if fault["kind"] == "max_functions":
             fs["configs"][0]["optimizer"]["max_functions"] = fault["value"]
+        elif fault["kind"] == "event_abort":
+            fs["event_faults"] = [{"event": fault["event"], "receiver": fault["receiver"]}]
         else:
             fs["faults"] = list(fs.get("faults", [])) + fault["faults"]
         ctx = harness.run_scenario(fs)
